@@ -22,7 +22,9 @@ func VPGFMulRef(pp, m, a, b int) int {
 	for i := 2*m - 2; i >= m; i-- {
 		r ^= (pp << uint(i-m)) * ((r >> uint(i)) & 1)
 	}
-	return r
+	// the reduction has cleared bits m..2m-2; the mask states it (a no-op on values, it lets the
+	// term layer see that the high bits are zero instead of leaving that to the solver)
+	return r & (1<<uint(m) - 1)
 }
 
 // VPGFMulSummary stands in for (*GaloisField).Multiply where a harness cuts
